@@ -13,6 +13,7 @@
 (***************************************************************************)
 EXTENDS TraceBase, FiniteSets, SequencesExt
 VARIABLE done
+WA == INSTANCE WriteLineAlgo
 TInit == tid \in 1..NT /\ l = 1 /\ done = FALSE
 C(n) == Ev.prop \o "." \o n
 
@@ -70,6 +71,14 @@ THeader == /\ Ev.op = "header" /\ done' = TRUE
                      IN /\ Chk(C("SameItemCount"), Len(x) = Len(y))
                         /\ Len(x) = Len(y) => \A i \in DOMAIN x : Chk(C("ItemRecovered"), SameItem(x[i], y[i], sec, i))
                 /\ Chk(C("OtherText"), Ev.other = Ev.obs_other)
+                \* algorithm layer vs implementation: the header lines lasio wrote are exactly WriteLineAlgo!Lines (no verdict: drift)
+                /\ \A k \in DOMAIN Ev.wsecs :
+                     LET its == [i \in DOMAIN Ev.wsecs[k].items |-> [o |-> Ev.wsecs[k].items[i].o, u |-> Ev.wsecs[k].items[i].u,
+                                                                     v |-> Ev.wsecs[k].items[i].v, d |-> Ev.wsecs[k].items[i].d]]
+                         ords == [i \in DOMAIN its |-> IF Ev.version = "1.2" /\ Ev.wsecs[k].name = "Well"
+                                                           /\ Ev.wsecs[k].items[i].up \notin {"STRT", "STOP", "STEP", "NULL"}
+                                                        THEN "descr:value" ELSE "value:descr"]
+                     IN Chk("Drift.WriteLineAlgo", Ev.wlines[k] = WA!Lines(its, ords))
 
 \* ---- C11 / C12 --------------------------------------------------------------------
 \* recorded finding D31: the index values are not representable in the format they are written with, and the only thing that
